@@ -50,7 +50,7 @@ RWalk(t, path, crossed) ==
     ELSE IF Kind(t) = "view" /\ path # <<>> THEN RWalk(Rest(t), path, crossed)
     ELSE IF path = <<>> THEN [ok |-> TRUE, t |-> t, crossed |-> crossed]
     ELSE IF Head(path) = "i"
-         THEN IF Kind(t) \in {"arr", "slice"} THEN RWalk(ElemOf(t), Tail(path), crossed)
+         THEN IF Kind(t) \in {"arr", "slice", "endless"} THEN RWalk(ElemOf(t), Tail(path), crossed)
               ELSE IF Kind(t) = "sptr" THEN RWalk(ElemOf(t), Tail(path), TRUE)
               ELSE [ok |-> FALSE, t |-> t, crossed |-> crossed]
     ELSE IF Head(path) \in MemberNames(t) THEN RWalk(Members(t[2])[Head(path)], Tail(path), crossed)
@@ -89,6 +89,7 @@ Target(c) ==
     IN CASE c.ctx = "read" -> IF Declarable(et) THEN et ELSE <<>>          \* <<>>: no annotation
          [] c.ctx = "arg" -> FittingParam(et)
          [] c.ctx = "argmiss" -> Ptr(et)
+         [] c.ctx = "argxp" -> Ptr(EndlessOf(ElemOf(StripPtr(F))))
          [] OTHER -> <<>>
 
 RVerdict(c) ==
@@ -113,6 +114,14 @@ RVerdict(c) ==
                   view == IF ofview(c.k) THEN {530, 504, 512} ELSE {}
                   agg  == IF c.ctx = "read" THEN AggCodes(et) ELSE {}
                   all  == c530 \cup view \cup agg
+              IN IF all = {} THEN Ok(et) ELSE Rej(all)
+         [] c.ctx = "argxp" ->
+              \* `callee(&^k ref)` for `extern fn callee(q: &[]T)`, T the element type of the array / view /
+              \* slice pointer ref: the argument must fit by the rules of TypeRules (a view never becomes a
+              \* pointer) and a new address may only be taken of a mutable place
+              LET a    == ArgOK(F, c.k, Ptr(EndlessOf(ElemOf(core))))
+                  c530 == IF takes(c.k) /\ ~mut THEN {530} ELSE {}
+                  all  == (IF a.ok THEN {} ELSE a.codes) \cup c530
               IN IF all = {} THEN Ok(et) ELSE Rej(all)
          [] c.ctx = "argmiss" ->
               Rej({513} \cup (IF (takes(c.k + 1) /\ ~mut) \/ ofview(c.k + 1) \/ Kind(et) \in {"slice", "view"} THEN {512, 530} ELSE {}))
@@ -145,7 +154,10 @@ StepsAfterLastMember(taken) ==
             IN {taken[j] : j \in (m + 1)..Len(taken)}
 
 AVerdict(c, faithful) ==
-    CASE c.ctx = "assign" ->
+    CASE c.ctx = "argxp" ->       \* no separate model of the extern coercions: the model is the rule
+           LET v == RVerdict(c)
+           IN [out |-> (IF v.ok THEN "accept" ELSE "reject"), codes |-> v.codes, taken |-> <<>>]
+      [] c.ctx = "assign" ->
            LET r == AssignRun(c.d, c.path, c.k)
                quirk == faithful /\ (StepsAfterLastMember(r.taken) \cap {"elem", "deref"} # {} \/ IndexThenMember(c.path))
            IN IF r.out # "ok" THEN [out |-> r.out, codes |-> {506}, taken |-> r.taken]
